@@ -505,7 +505,10 @@ func genModelWorld(r *Rng, prop string) *World {
 		c.PBadType = Pick(r, []float64{0.05, 0.15, 0.3})
 	}
 	c.Opts = r.P(0.3)
-	c.PTags = 0 // struct tags are C10's and C14's subject (open finding F-TAGS); keys are schema keys here
+	c.PTags = 0
+	c.Coercers = r.P(0.4)
+	c.Widths = true
+	c.BigInts = true // struct tags are C10's and C14's subject (open finding F-TAGS); keys are schema keys here
 	root := GenNode(r, &c, 0, true)
 	if r.P(0.08) {
 		// long paths: a cold path builder has room for five segments
